@@ -1,6 +1,7 @@
 SPECIFICATION TraceSpec
 CONSTANTS
-    Paths = {"p", "q", "r"}
+    Paths = {"p", "q", "r", "o"}
+    StorePaths = {"o"}
     Contents = {"c1", "c2", "c3"}
     Size <- SizeDef
     Algs = {"md5", "sha256"}
